@@ -110,9 +110,24 @@ def three_episodes(b, rng):
     """One dispatcher, three episodes: two abandoned prefixes of the behaviour's dispatch sequence, each followed by
     a reset, then the whole sequence (what a training loop does; defects that need two resets live here)."""
     acts = [a for a in b["hist"] if a["a"] == "D"]
+
+    def reinterleaved():
+        """the same operations on the same machines, jobs interleaved differently (job order kept)"""
+        queues = {}
+        for a in acts:
+            queues.setdefault(a["j"], []).append(a)
+        out = []
+        while queues:
+            j = rng.choice(sorted(queues))
+            out.append(queues[j].pop(0))
+            if not queues[j]:
+                del queues[j]
+        return out
+
     hist = []
     for _ in range(2):
-        hist += acts[: rng.randint(1, max(1, len(acts)))] + [{"a": "Reset"}]
+        other = reinterleaved()
+        hist += other[: rng.randint(1, max(1, len(other)))] + [{"a": "Reset"}]
     return dict(b, hist=hist + acts)
 
 
